@@ -40,7 +40,7 @@ def gen_case(rng, tier):
     else:
         gene = {"kind": "shipped", "name": rng.choice(cfg["shipped"]), "genome": rng.choice(["hg19", "hg38"])}
     return {"gene": gene, "seed": rng.randint(0, 10**9), "gap": rng.choice([0, 0, 0.1, 0.5]),
-            "mode": rng.choice(["planted", "planted", "noisy", "noisy", "wild"]),
+            "mode": rng.choice(["planted", "planted", "noisy", "noisy", "wild", "excess"]),
             "depth": rng.choice([10, 20, 30]), "max_copies": rng.choice([2, 3, 3, 4])}
 
 
@@ -259,6 +259,42 @@ def run_case(case, seg, viol, unsound, stats, sample):
     elif mode == "noisy":
         table = SL.planted_table(gene, planted, case["depth"], rng, noise=rng.choice([0.1, 0.25, 0.4]),
                                  extra_noise=rng.choice([0, 0, 1, 2]))
+    elif mode == "excess":
+        # (1) an observed core variant that no candidate allele can carry (all its carriers need another,
+        #     unobserved core variant) forces a novel call; (2) two core variants that no allele combines
+        #     are both seen on every copy, so each can be carried at most once per copy of its allele
+        from aldy.gene import Mutation
+
+        D = case["depth"]
+        ncopy = len(cn)
+        funcs = sorted(Mutation(*m) for m in gene.mutations if gene.is_functional(m))
+        cands1 = [a for a in gene.alleles.values() if a.cn_config == "1"]
+        table = {}
+        sites = {}
+        for (pos, op) in gene.mutations:
+            sites.setdefault(pos, []).append(op)
+        for pos in sites:
+            table[pos] = {"_": D * ncopy}
+        pair = None
+        for x in funcs:
+            for z in funcs:
+                if x.pos < z.pos and any(set(a.func_muts) == {x} for a in cands1) and any(set(a.func_muts) == {z} for a in cands1) \
+                        and not any({x, z} <= set(a.func_muts) for a in cands1):
+                    pair = (x, z)
+                    break
+            if pair:
+                break
+        if pair:
+            for m in pair:
+                table[m.pos] = {m.op: D * ncopy, "_": 0}
+        seen = set(pair or ())
+        for y in funcs:
+            if y in seen or any(y.pos == s_.pos for s_ in seen):
+                continue
+            carriers = [a for a in cands1 if y in a.func_muts]
+            if carriers and all(any(w not in seen and w != y for w in a.func_muts) for a in carriers):
+                table[y.pos] = {y.op: D, "_": D * (ncopy - 1)}
+                break
     else:
         table = SL.planted_table(gene, planted, case["depth"], rng, noise=0.5, extra_noise=rng.randint(2, 6))
     profile = Profile("test", gap=case["gap"])
